@@ -24,6 +24,14 @@ CHECKS = {
          "'quantised' admits floor, round or ceil; JPEG/DXT structure only"),
  "C17": ("exploration", "generated schemas x record sets written by an independent DBC encoder; eager, cached, lazy, mmap, parallel and rewrite paths compared with the model and with each other; written size and string de-duplication; hashed and binary-search key lookups; ASan slice for the mmap path (thorough)", "reference-model monitor + independent encoder; AddressSanitizer on the mmap path", "§6 C17",
          "WDBC with schemas only; valid inputs only"),
+ "C08": ("exploration", "chain histories (all of length <= 3, sampled longer, all insertion orders x three construction APIs, tied parallel loads) against a priority-list model; generated COPY/BSD0 patches (independent encoder, RLE, bsdiff apply) direct and through PATCH_FILE chains, with every header field and payload region corrupted: result must be Err or carry the declared md5_after", "reference-model monitor (priority list) + independent patch oracle + panic trap + heap-request monitor; task-event hook for parallel open orders", "§6 C08",
+         "archives without listfile are outside the workload; ties touched by set_priority may resolve either way"),
+ "C11": ("exploration", "hostile entry/listfile names (grammar over .., separators, absolute, drive, UNC, long, unicode) planted by an independent MPQ writer, extracted by the CLI in 12 configurations; two observers of the whole neighbourhood: before/after tree snapshot and strace write-class syscall checker; benign files must still be extracted bit-identically", "file-system snapshot monitor + syscall trace checker (strace) at the process boundary", "§6 C11",
+         "names that would leave /verif/scratch if honoured are never generated (root-anchored names are anchored inside the sandbox)"),
+ "C14": ("exploration", "generated ADT builder inputs (isolated features per version, covering arrays over root and MCNK optional chunks, invalid inputs) x versions: build->bytes->parse equality, 1-4 parse->rebuild rounds stable and non-growing, independent chunk walker for framing, MHDR and MCIN entries", "reference-model monitor (builder input) + independent chunk walker", "§6 C14",
+         "exclusions listed in evidence (detected-version label, serializer-computed fields, neutral MTXF, MCIN size convention)"),
+ "C19": ("exploration", "model-based single-thread histories over all 30 exported functions with stale/forged/null handles and canary buffers; threaded runs with call/return logs checked offline (per-handle linearisation of the cursor, no success after close, unique ids); ASan over the same histories, TSan over threaded runs and a Miri slice (thorough)", "handle-table model + canaries + offline linearizability/ordering checker over call logs; AddressSanitizer, ThreadSanitizer, Miri", "§6 C19",
+         "seek semantics beyond either end not compared; re-entrant callbacks not driven; calls that cannot return on this tree are probed separately on a helper thread"),
  "C12": ("fault_enumeration", "every state-changing syscall of build/compact (V1-V4, dest absent/present) is killed or failed (ENOSPC, EIO) with strace inject, plus two-fault sequences and RLIMIT_FSIZE short-write sweeps; a separate process judges the destination path afterwards (old | absent | complete new archive)", "syscall-level fault injection (strace) + post-mortem file-system oracle", "§6 C12",
          "process death and I/O errors only, not power loss; faults are confirmed to have fired inside the marker window from each run's own trace"),
  "C18": ("exploration", "generated WDT/WDL definitions x versions round trip against a plain model with an independent chunk walker, all version pairs converted, and the coordinate pair enumerated for all 4096 tiles (corner, centre, range)", "reference-model monitor + independent chunk walker; exhaustive 64x64 enumeration for the coordinate clause", "§6 C18",
